@@ -547,8 +547,6 @@ def run_roll(prob, job, script=None):
     random.seed(job["seed"] + 17)
     if job.get("gen") == "module":         # the default generator of run_on: the `random` module itself
         rng = random
-    elif job.get("gen") == "system":
-        rng = random.SystemRandom()
     env, pol = prob.env, prob.policy
     sc = None
     if script is not None:
@@ -1026,7 +1024,11 @@ class Pipeline:
             fin = [e for e in tr["ev"] if e["k"] == "stop"][0]
             sc = self.outs[ji].get("script")
             same = got == want and fin["s"] == exp["fin"] and fin["ag"] == list(exp["fag"])
-            if not same or sc.diverged or sc.pos != len(sc.items):
+            if (sc.diverged and sc.diverged[0][1] == "a" and m.get("pk") in ("qb", "alpha")
+                    and "exact-tie-split-by-floating-point" in v["flags"]):
+                # the behaviour takes an exactly tied action that the real policy's float comparison dropped
+                ctx.count("behaviours_not_realisable_exact_tie_split_by_floats")
+            elif not same or sc.diverged or sc.pos != len(sc.items):
                 self.flag("scripted-replay-differs-from-TLC-behaviour", ji,
                           detail=dict(diverged=sc.diverged[:3], used=sc.pos, script=len(sc.items)))
             else:
@@ -1340,7 +1342,7 @@ def add_random_jobs(pipe, rng, tier, base_iid):
             caps = [0, 1, rng.randint(2, maxcap), maxcap]
             for cap in caps:
                 pipe.execute(dict(kind="roll", iid=iid, rep=rep, cap=cap, start=0, ag0=[], seed=rng.randrange(10 ** 6),
-                                  gen=rng.choice(["Random"] * 7 + ["module", "default", "system"])))
+                                  gen=rng.choice(["Random"] * 7 + ["module", "default"])))
             for s in dict.fromkeys(given):
                 if s not in listed:
                     continue
@@ -1385,6 +1387,13 @@ def run(ctx):
         "state; the agent-update clause against the policy's own next_agentstate re-invoked on the recorded arguments; "
         "differences between those and the spec's model of the policy class are DRIFT",
         "belief policies are started inside the support of the initial belief (otherwise Bayes' rule is undefined)",
+        "generators: random.Random(seed) (70%), the `random` module passed explicitly, and run_on's default generator; "
+        "whether a generator is *used* (reproducibility, isolation) is C13's property, here every generator must give "
+        "a valid trajectory",
+        "value-based belief policies compare floats: an exactly tied action the real policy drops is not a finding "
+        "(the sampled action must still be an exact maximiser of the model)",
+        "evaluate_on counts the final record of every roll-out as a visit with return 0 and action None; an "
+        "implementation that counts only the steps would be reported as DRIFT, anything else as VIOLATION",
         "msdm.core.pomdp.finitestatecontroller.FiniteStateController cannot be constructed (contradictory shape "
         "assertions, C09) - deterministic controllers are covered by a functional POMDPPolicy subclass",
     ]
